@@ -8,9 +8,15 @@
 (*                                                                         *)
 (* Perfect cryptography (Dolev-Yao): a signature by key k can only be made *)
 (* by a party holding k.  A certificate is a record                         *)
-(*   [subj: key in the SPKI, signer: key that signed it, san: name,        *)
+(*   [subj: key in the SPKI, signer: key that signed it,                   *)
+(*    san: a network name, or "absent" (no SAN extension), "iponly" (an IP *)
+(*         address and no DNS name), "garbled" (a SAN extension that does  *)
+(*         not parse as names),                                            *)
 (*    alg: "ed25519" | "other", validity: "ok" | "expired" | "notyet",     *)
-(*    wf: well-formed DER]                                                  *)
+(*    wf: well-formed DER,                                                  *)
+(*    decoy: "none" or a key whose complete SubjectPublicKeyInfo encoding  *)
+(*         is planted elsewhere in the certificate (serial number, private *)
+(*         extension) - bytes are free, only the SPKI field is the key]    *)
 (* and a handshake presents a chain (first element = end entity) plus a    *)
 (* proof: the key that signed the TLS CertificateVerify message.           *)
 (***************************************************************************)
@@ -23,14 +29,19 @@ AdvHolds == {"E"}
 Algs == {"ed25519", "other"}
 Validities == {"ok", "expired", "notyet"}
 
-Certs == [subj : Keys, signer : Keys, san : Names, alg : Algs, validity : Validities, wf : BOOLEAN]
+SanKinds == Names \cup {"absent", "iponly", "garbled"}
+Certs == [subj : Keys, signer : Keys, san : SanKinds, alg : Algs, validity : Validities, wf : BOOLEAN,
+          decoy : Keys \cup {"none"}]
 
 (* what webpki + anemo's verifiers accept as an end-entity certificate *)
 CertOk(c) ==
   /\ c.wf /\ c.alg = "ed25519" /\ c.validity = "ok"
   /\ c.signer = c.subj                      \* the end entity is its own trust anchor
 
-(* the TLS signature check: CertificateVerify must verify under the end entity's key *)
+(* the TLS signature check: CertificateVerify must verify under the end entity's key.  A proof *)
+(* is the key that really signed it, or "junk": bytes that are not a signature by any key,      *)
+(* whatever signature scheme they are labelled with                                              *)
+Proofs == Keys \cup {"junk"}
 SigOk(c, proof) == c.alg = "ed25519" /\ proof = c.subj
 
 (* the dialer's verifier (CertVerifier::verify_server_cert, optionally pinned) *)
@@ -54,9 +65,9 @@ Attributed(c) == c.subj
 (* which certificates / proofs can the adversary present?  Any certificate signed by a key it  *)
 (* holds (over any subject key - public keys are public), and any honest party's certificate   *)
 (* replayed; proofs only with keys it holds.                                                    *)
-HonestCert(k, n) == [subj |-> k, signer |-> k, san |-> n, alg |-> "ed25519", validity |-> "ok", wf |-> TRUE]
+HonestCert(k, n) == [subj |-> k, signer |-> k, san |-> n, alg |-> "ed25519", validity |-> "ok", wf |-> TRUE, decoy |-> "none"]
 AdvCerts == {c \in Certs : c.signer \in AdvHolds} \cup {HonestCert(k, n) : k \in Keys \ AdvHolds, n \in Names}
-AdvProofs == AdvHolds
+AdvProofs == AdvHolds \cup {"junk"}
 
 (* C01 Authentic: whatever the adversary presents, as dialer or as listener, whatever the      *)
 (* honest side's configuration, an accepted handshake attributes an identity whose key the     *)
@@ -95,12 +106,14 @@ ASSUME HonestConnects
 ClientRows ==
   {[names |-> names, cert |-> c, expect |-> (CertOk(c) /\ c.san \in names)] :
      names \in {{"n1"}, {"n1", "n2"}},
-     c \in {x \in Certs : x.subj \in {"X", "E"} /\ x.signer \in {"X", "E"} /\ x.san \in {"n1", "n2", "n3"}}}
+     c \in {x \in Certs : x.subj \in {"X", "E"} /\ x.signer \in {"X", "E"} /\ x.san \in {"n1", "n2", "n3", "absent", "iponly", "garbled"}
+                           /\ x.decoy \in {"none", "X", "Y"} /\ (x.decoy # "none" => x.wf /\ x.alg = "ed25519" /\ x.validity = "ok")}}
 ServerRows ==
   {[name |-> "n1", pin |-> pin, dialled |-> dn, cert |-> c,
     expect |-> ((pin # "none" => c.wf /\ c.alg = "ed25519" /\ c.subj = pin) /\ CertOk(c) /\ dn = "n1" /\ c.san = dn)] :
      pin \in {"none", "X", "E"}, dn \in {"n1", "n2"},
-     c \in {x \in Certs : x.subj \in {"X", "E"} /\ x.signer \in {"X", "E"} /\ x.san \in {"n1", "n2"}}}
+     c \in {x \in Certs : x.subj \in {"X", "E"} /\ x.signer \in {"X", "E"} /\ x.san \in {"n1", "n2", "absent", "iponly", "garbled"}
+                           /\ x.decoy \in {"none", "X", "Y"} /\ (x.decoy # "none" => x.wf /\ x.alg = "ed25519" /\ x.validity = "ok")}}
 
 (* handshake level, adversary as dialer against a real listener *)
 AdvDialRows ==
@@ -108,7 +121,26 @@ AdvDialRows ==
     expect |-> ClientAccept(lnames, sni, c, p)] :        \* further certificates in the chain change nothing
      lnames \in {{"n1"}, {"n1", "n2"}}, sni \in {"n1", "n2", "n3"}, p \in {"E", "X"}, extra \in {"none", "X", "Y"},
      c \in {x \in Certs : x.wf /\ x.validity = "ok" /\ x.alg = "ed25519" /\ x.san \in {"n1", "n2", "n3"}
-                           /\ x.subj \in {"X", "E"} /\ x.signer \in {"X", "E"}}}
+                           /\ x.subj \in {"X", "E"} /\ x.signer \in {"X", "E"} /\ x.decoy = "none"}}
+
+(* handshake level, certificate shapes and proofs a party without the key can always produce: *)
+(* the adversary E with its own or X's replayed certificate, odd SAN shapes, X's key planted   *)
+(* as a decoy, and junk proofs under several signature-scheme labels; as dialer against a      *)
+(* listener for n1 and as listener dialed by an honest node (no pin / pinned to E / to X)      *)
+Schemes == {"ed25519", "ed448", "ecdsa", "unknown"}
+ShapeCerts == {x \in Certs : x.wf /\ x.validity = "ok" /\ x.alg = "ed25519" /\ x.signer = x.subj /\ x.subj \in {"E", "X"}
+                              /\ x.san \in {"n1", "absent", "iponly", "garbled"} /\ x.decoy \in {"none", "X"}
+                              /\ (x.subj = "X" => x.san = "n1" /\ x.decoy = "none")}      \* X's certificate can only be replayed as it is
+ShapeProofs == {[proof |-> "E", scheme |-> "ed25519"]} \cup {[proof |-> "junk", scheme |-> s] : s \in Schemes}
+AdvShapeRows ==
+  {[dir |-> "dial", pin |-> "none", cert |-> c, proof |-> pr.proof, scheme |-> pr.scheme,
+    expect |-> ClientAccept({"n1"}, "n1", c, pr.proof), attributed |-> Attributed(c)] : c \in ShapeCerts, pr \in ShapeProofs}
+  \cup
+  {[dir |-> "listen", pin |-> pin, cert |-> c, proof |-> pr.proof, scheme |-> pr.scheme,
+    expect |-> ServerAccept({"n1"}, pin, c, "n1", pr.proof), attributed |-> Attributed(c)] :
+       c \in ShapeCerts, pr \in ShapeProofs, pin \in {"none", "E", "X"}}
+(* whatever the shape, an accepted handshake is attributed to a key the adversary holds *)
+ASSUME \A r \in AdvShapeRows : r.expect => r.attributed \in AdvHolds
 
 (* honest pairs: (primary, alternate) configurations, both directions *)
 Cfgs == {[primary |-> p, alt |-> a] : p \in Names, a \in Names \cup {"none"}}
@@ -119,4 +151,5 @@ ASSUME PrintT(<<"TABLE", "id_client", ToJson(ClientRows)>>)
 ASSUME PrintT(<<"TABLE", "id_server", ToJson(ServerRows)>>)
 ASSUME PrintT(<<"TABLE", "id_advdial", ToJson(AdvDialRows)>>)
 ASSUME PrintT(<<"TABLE", "id_pairs", ToJson(PairRows)>>)
+ASSUME PrintT(<<"TABLE", "id_advshape", ToJson(AdvShapeRows)>>)
 =============================================================================
